@@ -9,6 +9,12 @@
 #define CAP_MAX (1ULL << 40)   /* machine-arithmetic bound, stated in the evidence */
 #define CYCLE_MAX (1ULL << 62) /* the lap counter does not wrap                    */
 
+/* 8 is the size of the table in channel.h; the bounded fallback unit channel.write_map.mono
+ * lowers it with -DVERIF_MAX_READERS=3 (labelled bounded) */
+#ifndef VERIF_MAX_READERS
+#define VERIF_MAX_READERS 8
+#endif
+
 #define P_(c, i) ((c).holds.pos[i])
 #define Y_(c, i) ((c).holds.cycles[i])
 #define SAME_LAP(c, i) (Y_(c, i) == (c).cycle)
@@ -23,7 +29,7 @@
 #define BASE_OK(c)                                                             \
     ((c).capacity >= 1 && (c).capacity <= CAP_MAX && (c).head <= (c).mapped && \
      (c).mapped <= (c).capacity && (c).high <= (c).capacity &&                 \
-     (c).holds.n <= 8)
+     (c).holds.n <= VERIF_MAX_READERS)
 
 /* "for every registered reader": 8-way expansion, no quantifier reaches the solver */
 #define ALL8(c, PRED)                                                          \
